@@ -19,6 +19,8 @@ from fractions import Fraction
 import numpy as _np
 import z3
 
+import os as _os
+_DEBUG = bool(_os.environ.get("VK_DEBUG"))
 NAME_THRESHOLD = 14          # term nodes above which a scalar is named
 BRANCH_TIMEOUT_MS = 1500
 
@@ -371,6 +373,8 @@ class Ctx:
         self._std_hyps = None
         self.pending = []
         self.uf_records = []
+        self._bool_decided = {}
+        self._bool_in_pre = set()
         if mode == "symbolic":
             self.solver = z3.Solver()
             self.solver.set("timeout", self.opts.get("branch_timeout_ms", BRANCH_TIMEOUT_MS))
@@ -464,6 +468,9 @@ class Ctx:
         if self.pending:
             from . import solve
             solve.flush(self)          # assumptions are not retroactive
+        for vid, v in term_vars(t).items():
+            if z3.is_bool(v):
+                self._bool_in_pre.add(vid)
         self.pre.append(t)
         if self.solver is not None:
             self.solver.add(t)
@@ -482,9 +489,27 @@ class Ctx:
             v = self.prefix[k]
             self.decisions.append((t, v, True))
             self.solver.add(t if v else z3.Not(t))
+            if z3.is_const(t) and t.decl().kind() == z3.Z3_OP_UNINTERPRETED:
+                self._bool_decided[t.get_id()] = v
             return v
         if ex is not None:
             ex.check_budget()
+        # a free boolean input (fault bit, option switch) that no assumption mentions: both sides are feasible
+        if z3.is_const(t) and t.decl().kind() == z3.Z3_OP_UNINTERPRETED:
+            tid = t.get_id()
+            if tid in self._bool_decided:
+                v = self._bool_decided[tid]
+                self.decisions.append((t, v, False))
+                return v
+            if tid not in self._bool_in_pre:
+                self._bool_decided[tid] = True
+                if ex is not None:
+                    if len(self.decisions) >= ex.max_depth:
+                        raise PathAbort("decision depth budget")
+                    ex.schedule([d[1] for d in self.decisions] + [False])
+                self.decisions.append((t, True, True))
+                self.solver.add(t)
+                return True
         t0 = time.time()
         self.n_branch_checks += 1
         r_true = self.solver.check(t)
@@ -501,6 +526,10 @@ class Ctx:
             return True
         if r_true == z3.unknown or r_false == z3.unknown:
             self.unknown_branches += 1
+        if _DEBUG and time.time() - t0 > 0.4:
+            import traceback
+            fr = [f for f in traceback.extract_stack() if "/repo/" in f.filename or "/harness/" in f.filename][-2:]
+            print("SLOW-DECISION %.2fs %s %s :: %s" % (time.time() - t0, r_true, r_false, " <- ".join("%s:%d" % (f.filename.split("/")[-1], f.lineno) for f in fr)), str(t)[:150].replace("\n", " "), flush=True)
         # genuine (or undecided) fork: take True now, schedule False
         if ex is not None:
             if len(self.decisions) >= ex.max_depth:
